@@ -548,9 +548,10 @@ func locationTruthful(je *jerr.JApiError) bool {
 	if idx > len(data) {
 		return false
 	}
-	if idx == len(data) {
-		return true // the position of end of file: the code reports line 0 / the last line as quote
+	if idx == len(data) && len(data) == 0 {
+		return true // an empty file has no line
 	}
+	atEOF := idx == len(data) // the position right behind the last byte: line and column are checked, the quote is the last line's
 	// line breaks: LF, CRLF or a lone CR (the files of one project use one convention)
 	line, col := 1, 1
 	ls := 0
@@ -575,6 +576,9 @@ func locationTruthful(je *jerr.JApiError) bool {
 	}
 	if int(je.Line) != line || int(je.Column) != col {
 		return false
+	}
+	if atEOF {
+		return true
 	}
 	q := strings.TrimLeft(string(data[ls:le]), " \t")
 	if len(data[ls:le]) > 200 {
